@@ -46,3 +46,26 @@ $(HO)/names_main.o: $(GEN)/api_gen.hpp
 $(BIN)/names.%: $(HO)/names_main.o $(HO)/capspec_gen.o $(B)/lib/%/libmasa.a
 	@mkdir -p $(BIN)
 	$(CXX) -o $@ $(HO)/names_main.o $(HO)/capspec_gen.o $(B)/lib/$*/libmasa.a -lrapidcheck
+
+# ---- C19: sanitizer builds (clang; harness objects instrumented too) and the live-byte accounting
+HOA  := $(B)/obj_asan
+CLX  := clang++
+CLXF := -std=gnu++17 -O1 -g -w -I$(GEN) -I$(E) -DMASA_VERIF -fsanitize=address,undefined -fno-sanitize-recover=undefined -fno-omit-frame-pointer
+$(HOA)/%.o: $(E)/%.cpp $(EHDR) $(GEN)/masa.h $(GEN)/api_gen.hpp
+	@mkdir -p $(HOA)
+	$(CLX) $(CLXF) -c $< -o $@
+$(HOA)/capspec_gen.o: $(GEN)/capspec_gen.cpp $(EHDR) $(GEN)/masa.h $(GEN)/api_gen.hpp
+	@mkdir -p $(HOA)
+	$(CLX) $(CLXF) -c $< -o $@
+$(HOA)/fuzz_hist.o: $(E)/fuzz_hist.cpp $(EHDR) $(GEN)/masa.h $(GEN)/api_gen.hpp
+	@mkdir -p $(HOA)
+	$(CLX) $(CLXF) -fsanitize=fuzzer-no-link -c $< -o $@
+$(BIN)/fuzz_hist.asanexc: $(HOA)/fuzz_hist.o $(HOA)/capspec_gen.o $(B)/lib/asanexc/libmasa.a
+	@mkdir -p $(BIN)
+	$(CLX) -fsanitize=fuzzer,address,undefined -o $@ $(HOA)/fuzz_hist.o $(HOA)/capspec_gen.o $(B)/lib/asanexc/libmasa.a
+$(BIN)/hist.asanexc: $(HOA)/hist_main.o $(HOA)/capspec_gen.o $(B)/lib/asanexc/libmasa.a
+	@mkdir -p $(BIN)
+	$(CLX) -fsanitize=address,undefined -o $@ $(HOA)/hist_main.o $(HOA)/capspec_gen.o $(B)/lib/asanexc/libmasa.a -lrapidcheck
+$(BIN)/leak.%: $(HO)/leak_main.o $(B)/lib/%/libmasa.a
+	@mkdir -p $(BIN)
+	$(CXX) -o $@ $(HO)/leak_main.o $(B)/lib/$*/libmasa.a -lrapidcheck
